@@ -40,6 +40,21 @@ NEEDS = {
  "C18-a": "concurrent QR writers: package-level Reed-Solomon encoder with a lazily grown generator cache",
  "C18-b": "concurrent UPC/EAN decodes: package-level scratch counters in findStartGuardPattern",
 }
+STRENGTHENED = {
+ "C16-b": "missed at first (no harness grew an array before Reverse); VerifC16ArrayGrown added",
+ "C10-b": "missed at first (EAN-5 not covered), then inconclusive (a back end's sat answer came without a usable model); VerifC10Ext5 added, fresh-solver models are now validated in the evaluator and fall back to the truth table over 4-bit digit inputs",
+ "C20-a": "missed at first, then inconclusive (FP query at the exact threshold); VerifC20Boundary added with 4-bit counters so the truth-table fallback decides it",
+ "C19-b": "missed at first (ground transforms with one exactly-zero closing sum not enumerated); VerifC19TransformGround added",
+ "C04-a": "missed at first (no full-length multi-error task with an error at index 0); VerifC04DecodeZero added — the single task reports the violation in about 4 minutes, the whole quick check on the patched tree needs far longer than on the clean tree",
+ "C01-a": "missed by C01 at first (no exact byte-aligned fill among the end-to-end tasks) but caught by C13's WillFit tasks; exact-fill tasks (34 digits at 1-M, 27 at 1-Q) added to C01",
+ "C02-a": "missed at first (Base-256 runs stopped below 250 bytes); prefixes of 248 and 504 Base-256 characters added",
+ "C03-a": "missed at first (no Code 128 template with code set A active); template 10 added",
+ "C05-a": "missed at first (correctErrors was stubbed everywhere); VerifC05Correct runs the real correctErrors with one free error at every position",
+ "C06-a": "missed at first (no 1-D DecodeRow on truncated rows); VerifC06Truncated added",
+ "C06-b": "missed at first (version blocks never free); VerifC06QRVersionBlocks added",
+ "C17-a": "missed at first (no hybrid task with width%8 == 0 and height%8 != 0); sizes 40x41, 41x40, 48x45 added",
+ "C01-b": "Kanji mode was outside every claim at first; VerifC15Kanji (C15) now runs every Shift_JIS row of the quick tier's lead bytes; U+6F3E has lead byte E0",
+}
 confirm, runs = {}, {}
 for f in sys.argv[1:]:
     for l in open(f):
@@ -70,7 +85,7 @@ for sid, needs in sorted(NEEDS.items()):
     }
     if sid in old.get('notes', {}) if isinstance(old.get('notes'), dict) else False:
         pass
-    if 'remark' in old:
-        meta['remark'] = old['remark']
+    if sid in STRENGTHENED:
+        meta['history'] = STRENGTHENED[sid]
     json.dump(meta, open(d + '/meta.json', 'w'), indent=1)
     print(sid, meta['verdict'], caught)
